@@ -17,8 +17,10 @@ RULE = (
     "every public property (plain and lazy) of every pptx object reachable from a Presentation by reflection - slides, "
     "layouts, masters, notes, shapes of every kind, placeholders, text frames, paragraphs, runs, fonts, fills, lines, "
     "colours, tables, cells, charts, plots, series, points, axes, legends, data labels, parts, relationships - plus "
-    "iteration and len() of every collection, over a generated deck holding every kind of object and over the corpus "
-    "decks, in seeded order.  (a) per access: the owning part and the package's part list before / after; an access that "
+    "iteration and len() of every collection, over a generated deck holding every kind of object, over the corpus decks, "
+    "over THINNED variants of both (optional elements and attributes removed at random while lxml still accepts the part, "
+    "so that getters meet absent elements) and over variants whose slide parts are renumbered (gap, permutation, high "
+    "number), in seeded order.  (a) per access: the owning part and the package's part list before / after; an access that "
     "changes anything is classified by the canonical form (empty attribute-less containers erased) computed in Python and "
     "by the Lean model on the same two trees; (b) end to end: a deck traversed completely (documented creators excepted), "
     "with repetitions and intermediate saves, then saved, against the same deck saved straight after opening: same parts "
@@ -54,6 +56,86 @@ def decks_for(quick, rng):
     if quick:
         decks = sorted(rng.sample(decks, 10), key=str)
     return decks
+
+
+# ------------------------------------------------------------------------------------------------ generated inputs
+def thin(data, rng, per_part=25):
+    """a deck in a document shape the corpus does not have: optional elements and attributes are removed at random as
+    long as the part stays schema-valid (lxml), so that getters meet ABSENT elements and attributes"""
+    from pptx import Presentation
+    from harness import xmllab as X
+
+    prs = Presentation(io.BytesIO(data))
+    removed = 0
+    for pn, el in X.xml_parts(prs.part.package):
+        if X.schema_for(el) is None:
+            continue
+        ok0, _ = X.validate(el)
+        if not ok0:
+            continue
+        nodes = [e for e in el.iter() if isinstance(e.tag, str) and e is not el]
+        if not nodes:
+            continue
+        is_chart = pn.startswith("/ppt/charts/")
+        for _ in range(max(per_part, len(nodes) // 2) if is_chart else per_part):
+            e = rng.choice(nodes)
+            parent = e.getparent()
+            if parent is None:
+                continue
+            if rng.random() < 0.5 and e.attrib:
+                a = rng.choice(list(e.attrib))
+                old = e.attrib.pop(a)
+                if X.validate(el)[0]:
+                    removed += 1
+                else:
+                    e.set(a, old)
+            elif len(e) == 0 or rng.random() < 0.3:
+                idx = parent.index(e)
+                tail = e.tail
+                parent.remove(e)
+                if X.validate(el)[0]:
+                    removed += 1
+                    nodes = [x for x in nodes if x is not e and e not in list(x.iterancestors())]
+                    if not nodes:
+                        break
+                else:
+                    e.tail = tail
+                    parent.insert(idx, e)
+    out = io.BytesIO()
+    prs.save(out)
+    return out.getvalue(), removed
+
+
+def renumber_slides(data, rng):
+    """the same deck with its slide parts under other numbers (a gap, a permutation, a number above the count): the first
+    access to Presentation.slides renames them"""
+    import re
+    z = zipfile.ZipFile(io.BytesIO(data))
+    nums = sorted(int(m.group(1)) for n in z.namelist() for m in [re.fullmatch(r"ppt/slides/slide(\d+)\.xml", n)] if m)
+    if len(nums) < 2:
+        return None
+    kind = rng.choice(["gap", "permute", "high"])
+    if kind == "gap":
+        new = [n if i == 0 else n + 1 for i, n in enumerate(nums)]          # 1,3,4,...
+    elif kind == "permute":
+        new = nums[1:] + nums[:1]
+    else:
+        new = nums[:-1] + [nums[-1] + 5]
+    mp = dict(zip(nums, new))
+    out = io.BytesIO()
+    with zipfile.ZipFile(out, "w", zipfile.ZIP_DEFLATED) as zo:
+        for n in z.namelist():
+            b = z.read(n)
+            m = re.fullmatch(r"ppt/slides/(_rels/)?slide(\d+)\.xml(\.rels)?", n)
+            name = n
+            if m:
+                name = f"ppt/slides/{m.group(1) or ''}slide@{mp[int(m.group(2))]}@.xml{m.group(3) or ''}"
+            if n.endswith(".rels") or n == "[Content_Types].xml":
+                t = b.decode("utf-8")
+                t = re.sub(r"slides/slide(\d+)\.xml", lambda mm: f"slides/slide@{mp[int(mm.group(1))]}@.xml", t)
+                b = t.replace("@", "").encode("utf-8")
+            zo.writestr(name.replace("@", ""), b)
+    return out.getvalue()
 
 
 class Observer:
@@ -120,12 +202,22 @@ def observe_all(quick, seed):
     rng = random.Random(f"c12-{seed}")
     out = []
     out.append(observe_deck(build_deck(), "generated-deck", rng, 3000))
+    b = io.BytesIO(); build_deck().save(b)
+    for k in range(2 if quick else 10):
+        td, n = thin(b.getvalue(), rng)
+        out.append(observe_deck(Presentation(io.BytesIO(td)), f"generated-deck(thinned#{k},{n} removed)", rng, 3000))
     for d in decks_for(quick, rng):
         try:
             prs = Presentation(str(d))
         except Exception:  # noqa
             continue
         out.append(observe_deck(prs, d.name, rng, 1200 if quick else 4000))
+        if d.name.startswith(("cht-", "shp-", "txt-", "tbl-", "dml-")) or not quick:
+            try:
+                td, n = thin(d.read_bytes(), rng)
+                out.append(observe_deck(Presentation(io.BytesIO(td)), f"{d.name}(thinned,{n} removed)", rng, 1200 if quick else 4000))
+            except Exception:  # noqa
+                pass
     _observed = out
     return out
 
@@ -139,6 +231,14 @@ def translate(ctx):
         for a, e in ob.effects.items():
             eff[a] = max(eff.get(a, 0), e)
     mut = sorted(a for a, e in eff.items() if e == 2)
+    import os
+    if os.environ.get("C12_DEBUG"):
+        with open("/tmp/c12-translate.log", "a") as fh:
+            fh.write(f"seed={seed} changing={mut}\n")
+            for ob in obs:
+                for acc, objname, before, after, e in ob.changed:
+                    if e == 2 and acc not in R.DOCUMENTED_CREATORS and acc not in known_mutators():
+                        fh.write(f"   {ob.label} {acc} {objname} {before[:80]!r}\n")
     doc = sorted(R.DOCUMENTED_CREATORS)
     src = ["-- GENERATED by harness/props/c12.py: effect of every public read accessor, observed on the real objects of a generated",
            "-- deck and of corpus decks (0 = pure, 1 = adds only empty attribute-less containers, 2 = changes the document).",
@@ -235,7 +335,12 @@ def end_to_end(ctx, label, data, lines, metas):
     a = io.BytesIO()
     Presentation(io.BytesIO(data)).save(a)
     pa = read_package(a.getvalue())
-    pb = read_package(traverse_and_save(data, rng, ctx))
+    saved = traverse_and_save(data, rng, ctx)
+    names = zipfile.ZipFile(io.BytesIO(saved)).namelist()
+    if len(set(names)) != len(names):
+        dup = sorted(n for n in set(names) if names.count(n) > 1)
+        ctx.fail("e2e:duplicate-member", f"{label}: the deck saved after reading has duplicate zip members {dup[:4]}", {"deck": label})
+    pb = read_package(saved)
     T = schemagen.tables()
     roots, inner = container_ids()
     case = {"deck": label}
@@ -295,9 +400,25 @@ def correspond(ctx):
     rng = ctx.rng
     b = io.BytesIO(); build_deck().save(b)
     end_to_end(ctx, "generated-deck", b.getvalue(), lines, metas)
+    gen = b.getvalue()
+    for k in range(2 if ctx.quick else 8):
+        td, n = thin(gen, rng)
+        end_to_end(ctx, f"generated-deck(thinned#{k})", td, lines, metas)
+        ctx.count("thinned-removals", n)
+    b3 = io.BytesIO()
+    prs3 = build_deck(); prs3.slides.add_slide(prs3.slide_layouts[5]); prs3.slides.add_slide(prs3.slide_layouts[1]); prs3.save(b3)
+    for k in range(3 if ctx.quick else 10):
+        rd = renumber_slides(b3.getvalue(), rng)
+        if rd is not None:
+            end_to_end(ctx, f"generated-deck(slides renumbered#{k})", rd, lines, metas)
+            ctx.count("renumbered-decks")
     for d in decks_for(ctx.quick, random.Random(f"c12-{ctx.seed}"))[: (6 if ctx.quick else 100)]:
         try:
             end_to_end(ctx, d.name, d.read_bytes(), lines, metas)
+            rd = renumber_slides(d.read_bytes(), rng)
+            if rd is not None and rng.random() < (0.5 if ctx.quick else 1.0):
+                end_to_end(ctx, d.name + "(slides renumbered)", rd, lines, metas)
+                ctx.count("renumbered-decks")
         except Exception as e:  # noqa
             ctx.count(f"e2e-aborted:{type(e).__name__}")
             ctx.note(f"end-to-end on {d.name} aborted: {type(e).__name__}: {str(e)[:120]}")
